@@ -1,4 +1,4 @@
-(** Preservation of the upgrade invariant, label group D4 (see Eio/UpgradeInv.v). *)
+(** Preservation of the upgrade invariant (Eio/UpgradeInv.v) by label STimerClose, server candidate CDead. *)
 From SioV Require Import Base.GoSem Base.Conc Eio.Upgrade Eio.UpgradeInv.
 From Coq Require Import Lia.
 
